@@ -197,38 +197,57 @@ Qed.
 Print Assumptions C33_serve_handlers_total.
 
 (** ... in front of the real blockchain module (ProcGetBlockDetailsMsg, blocks
-    0..tip, memory for 257 pointers): every int64 request is survived and every
-    range handed on spans at most 257 blocks.  FALSE for the code as it is. *)
-Definition C33_serve_request_full : Prop := forall tip cap r,
-  int64 tip -> 257 <= cap -> sreq_int64 r ->
-  serve_survives (serve_old (chain_get tip cap) r) = true
-  /\ forall s e, fst (serve_old (chain_get tip cap) r) = Some (s, e) -> span_ok s e = true.
-
-(** StartHeight = -2^40, EndHeight = 2^63-1: End-Start wraps to a negative
-    int64, passes "> 256" here and ">= 1000" in the blockchain module, which
-    then sizes a slice with tip+2^40+1 elements: fatal out of memory *)
-Theorem C33_serve_request_refuted : ~ C33_serve_request_full.
+    0..tip, memory for 257 pointers): every request with int64 fields, old or
+    new protocol, is survived, and every range handed on starts at a
+    non-negative height and spans at most 257 blocks (as integers).  Holds since
+    both handlers reject Start < 0 before they take End-Start (finding 4,
+    repaired: StartHeight = -2^40, EndHeight = 2^63-1 used to pass the wrapped
+    test here and in the blockchain module and ended in a fatal allocation) *)
+Theorem C33_serve_request : forall tip cap,
+  int64 tip -> 257 <= cap ->
+  (forall r, sreq_int64 r ->
+     serve_survives (serve_old (chain_get tip cap) r) = true
+     /\ forall s e, fst (serve_old (chain_get tip cap) r) = Some (s, e) -> 0 <= s /\ span_ok s e = true)
+  /\ (forall r, sreq_new_int64 r ->
+     serve_survives (serve_new (chain_get tip cap) r) = true
+     /\ forall s e, fst (serve_new (chain_get tip cap) r) = Some (s, e) -> 0 <= s /\ span_ok s e = true).
 Proof.
-  intros H. destruct serve_old_real_dies as (Hi & Hd & _).
-  destruct (H 10 2147483648 req_wrap) as [Hs _]; [unfold int64, two63; lia|lia|exact Hi|].
-  rewrite Hd in Hs. discriminate.
+  intros tip cap Ht Hcap. split; intros r Hr; [apply serve_old_real|apply serve_new_real]; assumption.
 Qed.
-Print Assumptions C33_serve_request_refuted.
-
-Theorem C33_serve_request_partial : forall tip cap r,
-  int64 tip -> 257 <= cap -> sreq_int64 r -> sreq_nonneg r = true ->
-  serve_survives (serve_old (chain_get tip cap) r) = true
-  /\ forall s e, fst (serve_old (chain_get tip cap) r) = Some (s, e) -> span_ok s e = true.
-Proof. exact serve_old_real_partial. Qed.
-Print Assumptions C33_serve_request_partial.
+Print Assumptions C33_serve_request.
 
 Theorem C33_serve_request_example :
-  sreq_nonneg (RdMsg (Some (3, 200))) = true
-  /\ serve_old (chain_get 10 1000) (RdMsg (Some (3, 200))) = (Some (3, 200), Done [3; 4; 5; 6; 7; 8; 9; 10])
-  /\ sreq_nonneg req_wrap = false
-  /\ serve_old (chain_get 10 2147483648) req_wrap = (Some (- 1099511627776, two63 - 1), Died).
-Proof. vm_compute. auto. Qed.
+  serve_old (chain_get 10 1000) (RdMsg (Some (3, 200))) = (Some (3, 200), Done [3; 4; 5; 6; 7; 8; 9; 10])
+  /\ serve_new (chain_get 10 1000) (RdMsg (3, 200)) = (Some (3, 200), Done [3])
+  /\ sreq_int64 req_wrap
+  /\ serve_old (chain_get 10 2147483648) req_wrap = (None, Dropped D_RANGE)
+  /\ serve_new (chain_get 10 2147483648) (RdMsg (- two63, 5)) = (None, Dropped D_RANGE).
+Proof.
+  split; [vm_compute; reflexivity|]. split; [vm_compute; reflexivity|].
+  split; [cbn; unfold int64, two63; lia|]. split; vm_compute; reflexivity.
+Qed.
 Print Assumptions C33_serve_request_example.
+
+(** the blockchain module's side of the same range (ProcGetBlockDetailsMsg is also
+    reached by the rpc and consensus modules through the queue): for every int64
+    request it answers with an error or with 1..1000 blocks - no panic, no
+    allocation beyond MaxBlockCountPerTime pointers.  Holds since the count test
+    also rejects a negative (= wrapped) End-Start *)
+Theorem C33_chain_get_blocks_total : forall tip cap s e,
+  int64 s -> int64 e -> int64 tip -> 1000 <= cap ->
+  chain_get tip cap s e = Done CErr
+  \/ exists hs, chain_get tip cap s e = Done (CBlocks hs) /\ (1 <= length hs <= 1000)%nat.
+Proof. exact chain_get_total. Qed.
+Print Assumptions C33_chain_get_blocks_total.
+
+Theorem C33_chain_get_blocks_example :
+  chain_get 10 2147483648 (- 1099511627776) (two63 - 1) = Done CErr
+  /\ chain_get 10 2147483648 (- 4611686018427387904) 4611686018427387904 = Done CErr
+  /\ chain_get 10 2147483648 3 200 = Done (CBlocks [3; 4; 5; 6; 7; 8; 9; 10])
+  /\ chain_get 2000 2147483648 0 999 = Done (CBlocks (zseq 0 1000))
+  /\ chain_get 2000 2147483648 0 1000 = Done CErr.
+Proof. vm_compute. repeat split. Qed.
+Print Assumptions C33_chain_get_blocks_example.
 
 (** peer-info handlers: for every channel, every pair of library oracles
     (IsPublicIP, NewMultiaddr), every external address and every request
